@@ -92,6 +92,8 @@ def build_data(spec):
         rs = np.random.RandomState(int(hist))
         other = {int(i): True for i in rs.choice(n, size=max(1, n // 3), replace=False)}
         ds = DataSet(f_in, Z_in, label=spec.get("label", "sim"), mask=other)
+        # set_mask() indices refer to the data set's own (descending) order, not to the input order
+        mask = {int(i): True for i in np.where(masked)[0]}
         for m in (None, False, True):
             ds.get_frequencies(masked=m)
             ds.get_impedances(masked=m)
